@@ -33,6 +33,8 @@ Rows == {
   R("string", "float:123456", "123456"), R("string", "float32:0.5", "0.5"),
   \* a float32 prints with 32-bit shortest digits (%v), not as the float64 it widens to
   R("string", "float32:0.1", "0.1"), R("string", "float32:3.14", "3.14"), R("string", "float32:16777216", "1.6777216e+07"),
+  \* small and unsigned integer types print as numbers (a uint8 is not a character), typed slices element-wise
+  R("string", "uint8:65", "65"), R("string", "uint:7", "7"), R("string", "int8:-3", "-3"), R("string", "float32s:0.1,0.5", "[0.1 0.5]"),
   R("string", "int64:7", "7"), R("string", "bool:false", "false"),
   R("string", "strs:b,a", "[b a]"), R("string", "time:native", "2020-01-02 03:04:05 +0000 UTC"),
   \* int / float from text and numbers (magnitudes are Tab_C18's business)
